@@ -485,6 +485,7 @@ func c13Run(t *testing.T, p c13Plan) (res vfResult) {
 			res.failf(cut("response-body-changed"), "%s: client received %d body bytes (err=%v), target sent %d (equal=%v)", desc, len(resp.Body), resp.BodyErr, len(wantBody), bytes.Equal(resp.Body, wantBody))
 			return
 		}
+		synctest.Wait() // the client has its response; the handler's deferred clean-up may still be running
 		if len(w.spillFiles()) != 0 {
 			res.failf("spill-left", "%s: spill files left behind: %v", desc, w.spillFiles())
 			return
